@@ -47,6 +47,9 @@ class int(metaclass=_IntMeta):
     pass
 
 
+EXACT_FLOAT_OF_INT = [False]
+
+
 class _FloatMeta(type):
     def __instancecheck__(cls, obj):
         if _bi.isinstance(obj, EV):
@@ -61,6 +64,8 @@ class _FloatMeta(type):
         x = a[0]
         if _bi.isinstance(x, (EV,)):
             return x
+        if EXACT_FLOAT_OF_INT[0] and _bi.isinstance(x, SV) and x.is_int():
+            return EV.of(npmodel._float_of_int(x))      # float64 rounding of large integers (harnesses with 2^53+ integers: C07)
         if _bi.isinstance(x, (SV, SB)):
             return EV.of(x)
         if _bi.isinstance(x, Fraction):
@@ -119,6 +124,10 @@ def _args(a):
 
 def min(*a, **k):
     xs = _args(a)
+    if 'default' in k and _bi.len(k) == 1 and _bi.len(a) == 1:
+        if not xs:
+            return k['default']
+        k = {}
     if k or not _bi.any(is_symbolic(v) for v in xs):
         return _bi.min(*a, **k)
     r = xs[0]
@@ -129,6 +138,10 @@ def min(*a, **k):
 
 def max(*a, **k):
     xs = _args(a)
+    if 'default' in k and _bi.len(k) == 1 and _bi.len(a) == 1:
+        if not xs:
+            return k['default']
+        k = {}
     if k or not _bi.any(is_symbolic(v) for v in xs):
         return _bi.max(*a, **k)
     r = xs[0]
